@@ -77,7 +77,7 @@ structure Arg (φ : Type) where
   kind : Kind
   self : Elem φ            -- the object as a value
   items : List (Elem φ)    -- `iter(arg)`
-deriving Repr
+deriving DecidableEq, Repr
 
 def Arg.ofElem {φ : Type} : Elem φ → Arg φ
   | .num f => ⟨.scalar, .num f, []⟩
